@@ -145,11 +145,22 @@ func runC01(e *Engine, r *Report, tier string) {
 
 	// ---------- R2 ----------
 	w54, _ := e.writerCallSites(cc, "54", "set")
-	var dispatchers []*ssa.Function // functions directly calling a 0x54 writer = attestation handler
+	// the attestation handler = a function that parks claims (calls a 0x54 writer) and runs under the tally; a
+	// function that parks claims anywhere else is not a dispatcher by definition (round-7 seed C01: genesis import
+	// parked every observed claim again, executed or not) -- it is judged by R5
+	underTally := e.Reach(tallyFns, nil)
+	var dispatchers []*ssa.Function
+	var strayParkers []*Edge
 	for _, w := range w54 {
-		for _, c := range e.Callers(w) {
-			if !isAuxPkg(fnPkgPath(c)) && !isGenesisOrUpgrade(c) {
+		for _, cs := range e.CallSites(w) {
+			c := cs.Caller
+			if isAuxPkg(fnPkgPath(c)) {
+				continue
+			}
+			if underTally[c] && !isGenesisOrUpgrade(c) {
 				dispatchers = append(dispatchers, c)
+			} else {
+				strayParkers = append(strayParkers, cs)
 			}
 		}
 	}
@@ -553,11 +564,40 @@ func runC01(e *Engine, r *Report, tier string) {
 			r.Check(res.AnyAccepted() && len(res.Leaves) == 0, "R5", e.FnKey(w)+" key", e.InstrPos(so.Instr), "0x54 key built from the stored claim's own GetEventNonce()", "0x54 key is not derived from the claim's own event nonce")
 		}
 		for _, c := range e.Callers(w) {
-			if isAuxPkg(fnPkgPath(c)) || isGenesisOrUpgrade(c) {
+			if isAuxPkg(fnPkgPath(c)) || !isDisp(c) {
 				continue
 			}
-			r.Check(isDisp(c), "R5", "caller "+e.FnKey(c), e.Pos(c.Pos()), "dispatcher", "unexpected writer of 0x54")
+			r.Ok("R5", "caller "+e.FnKey(c), e.Pos(c.Pos()), "parks claims under the tally (attestation handler)")
 		}
+	}
+	for _, cs := range strayParkers {
+		c := cs.Caller
+		ck := "caller " + e.FnKey(c)
+		if !e.onlyFromGenesisOrUpgrade(c) {
+			r.Fail("R5", ck, e.InstrPos(cs.Call), "a claim is parked (0x54) outside the handler dispatch of the tally: a claim that is not being observed right now (already executed, or never observed) can be parked and executed")
+			continue
+		}
+		// genesis import / upgrade: restoring parked claims from a list of parked claims is fine; deriving them from
+		// the attestations is not -- an observed attestation does not say whether its claim was executed already
+		fromAtt := false
+		for _, a := range cs.Call.Common().Args {
+			e.Slice(a, SliceOpts{MaxDepth: 12, IntoCallees: true, IntoCallers: true, ConstLeafOK: true}, func(v ssa.Value) Verdict {
+				if call, ok := v.(*ssa.Call); ok && strings.Contains(calleeName(call), "UnpackAttestationClaim") {
+					fromAtt = true
+					return Accept
+				}
+				if fa, ok := v.(*ssa.FieldAddr); ok && strings.HasSuffix(namedTypeName(fa.X.Type()), "types.Attestation") {
+					fromAtt = true
+					return Accept
+				}
+				if f, ok := v.(*ssa.Field); ok && strings.HasSuffix(namedTypeName(f.X.Type()), "types.Attestation") {
+					fromAtt = true
+					return Accept
+				}
+				return Continue
+			})
+		}
+		r.Check(!fromAtt, "R5", ck, e.InstrPos(cs.Call), "parked claims restored from a source other than the attestations", "genesis import / upgrade parks the claims of attestations again: an observed attestation does not record whether its claim was executed, so an executed claim can be executed a second time")
 	}
 
 	// ---------- R6 ----------
